@@ -296,7 +296,7 @@ def run_tlc(spec: str, cfg: Path | str, wd: Path, *, workers: int | None = None,
     meta = wd / ("meta_" + Path(str(cfg)).stem)
     meta.mkdir(parents=True, exist_ok=True)
     workers = workers or NCPU
-    cmd = ["timeout", str(timeout), "java", "-XX:+UseParallelGC", f"-Xmx{heap}"] + (java_opts or []) + [
+    cmd = ["timeout", str(timeout), "java", "-XX:+UseParallelGC", f"-Xmx{heap}", "-Xss256m"] + (java_opts or []) + [
         "-cp", TLA_CP, "tlc2.TLC", "-workers", str(workers), "-metadir", str(meta), "-noGenerateSpecTE",
         "-config", str(cfg)]
     if coverage:
@@ -608,4 +608,9 @@ def run_check(fn, prop: str, level: str) -> int:
         return chk.finish()
     except MachineryError as ex:
         print(f"MACHINERY-FAILURE property={prop}: {ex}", file=sys.stderr)
+        return 2
+    except Exception:  # noqa: BLE001  -- a bug of the machinery is never reported as a violation
+        import traceback
+        print(f"MACHINERY-FAILURE property={prop}: unexpected exception in the harness", file=sys.stderr)
+        traceback.print_exc()
         return 2
